@@ -363,6 +363,12 @@ func (r *replayer) dispatch(line []byte) error {
 			return err
 		}
 		r.histCase(c)
+	case "C11":
+		var c FrontCase
+		if err := json.Unmarshal(line, &c); err != nil {
+			return err
+		}
+		r.frontCase(c)
 	case "PROG":
 		var c ProgCase
 		if err := json.Unmarshal(line, &c); err != nil {
